@@ -1439,19 +1439,9 @@ theorem axisBlocks_min_eq_region {start stop tc c : Nat} (htc : 0 < tc) (hal : s
   unfold axisBlocks
   generalize hl : stop - start = len at hc
   have hlen : 0 < len := by omega
-  by_cases h1 : tc ≤ len
-  · have : c = tc := by
-      rw [Nat.min_eq_left h1] at hc
-      by_cases h2 : c ≤ len
-      · rw [Nat.min_eq_left h2] at hc; exact hc
-      · rw [Nat.min_eq_right (by omega)] at hc; omega
-    rw [this]
-  · have h2 : len ≤ c := by
-      rw [Nat.min_eq_right (by omega)] at hc
-      by_cases h2 : c ≤ len
-      · rw [Nat.min_eq_left h2] at hc; omega
-      · omega
-    have hc0 : 0 < c := by omega
+  by_cases h1 : c = tc
+  · rw [h1]
+  · have h2 : len ≤ c ∧ len ≤ tc := by omega
     have e1 : (len + c - 1) / c = 1 := by
       apply Nat.div_eq_of_lt_le <;> omega
     have e2 : (len + tc - 1) / tc = 1 := by
